@@ -66,7 +66,7 @@ CHECKS['C13'] = dict(
    ref='DESIGN.md §4 C13')
 CHECKS['C10'] = dict(
    technique='explicit-state: BFS over interpreter states reachable by good / run-time-failing sources (complete dump as key); in every state every rejected source must be a no-op (identical dump, else named state + behaviour under all probes, both submission styles); exhaustive run-time-failure histories for re-execution',
-   text='States reachable by histories of 12 good and 4 run-time-failing sources to depth 2 (quick) / 3 (thorough) in both submission styles (eval; compile then run); in each state every one of ~750 (quick) / ~5000 (thorough) rejected sources (prefix leaving open structures or meta blocks x failing token x trailing text) is submitted both ways and must leave no trace; by induction any history with rejected sources deleted behaves identically. Plus all histories of length <= 2/3 containing a run-time failure followed by every probe: the failure marker prints exactly once and the two styles agree.',
+   text='States reachable by histories of 12 good and 4 run-time-failing sources to depth 2 (quick) / 3 (thorough) in both submission styles (eval; compile then run); in each state every one of ~750 (quick) / ~5000 (thorough) rejected sources (prefix leaving open structures or meta blocks x failing token x trailing text) is submitted both ways and must leave no trace; by induction any history with rejected sources deleted behaves identically. Plus all histories of length <= 2/3 containing a run-time failure followed by every probe: the failure marker prints exactly once and the two styles agree. A process-level leg drives the real REPL (child process on a pipe) with histories with / without the rejected line and compares what it prints after a marker.',
    note='Assumes equal complete dumps imply equal futures. Constants overwritten in place inside a rejected source, and the stack residue of a run-time failure, are outside the check.',
    ref='DESIGN.md §4 C10')
 CHECKS['C06'] = dict(
@@ -96,7 +96,7 @@ CHECKS['C11'] = dict(
    ref='DESIGN.md §4 C11')
 CHECKS['C03'] = dict(
    technique='stateless exhaustive search over operation histories on up to three interpreter copies (eval / clone / step / reverse-step), every history rebuilt by replay; isolation invariant on every other copy and differential against a clone-free fresh replay after every operation',
-   text='Every history that starts with 0..2 share-building sources on the original and a clone, followed by every sequence of 3 (quick) / 4 (thorough) operations over a 43 (quick) / 61 (thorough) operation alphabet: 22 share-then-mutate sources (bit-string append/invert/and on shared buffers, vector push, map insert/remove, definitions and redefinitions, late binding, variables, emit with output interception, printing, binary-input reads, the 2D canvas host object) on copies A/B/C, clone B->C and A->C, compile + 2 steps, rnext, run. After every operation the complete dump, output and host-object probe of every other copy must be unchanged, and the operated copy must equal a freshly booted interpreter fed the same lineage without clones.',
+   text='Every history that starts with 0..2 share-building sources on the original and a clone, followed by every sequence of 3 (quick) / 4 (thorough) operations over a 43 (quick) / 61 (thorough) operation alphabet: 22 share-then-mutate sources (bit-string append/invert/and on shared buffers, vector push, map insert/remove, definitions and redefinitions, late binding, variables, emit with output interception, printing, binary-input reads, the 2D canvas host object) on copies A/B/C, clone B->C and A->C, compile + 2 steps, rnext, run. After every operation the complete dump, output and host-object probe of every other copy must be unchanged, and the operated copy must equal a freshly booted interpreter fed the same lineage without clones. A process-level leg drives the real REPL: setup line, /snapshot, two mutating lines, /rollback, probes — compared with the run without the snapshot section.',
    note='Observable state of a copy = complete verif_dump + host-object probe. The REPL snapshot bookkeeping itself is not driven. Host objects shared by clone are an open known finding.',
    ref='DESIGN.md §4 C03')
 
